@@ -8,6 +8,7 @@
 -/
 import SkyllhModel.Model.Grid
 import SkyllhModel.Model.GridObj
+import SkyllhModel.Model.GridR7
 import SkyllhModel.Generated.C15
 import Mathlib.Tactic
 import Mathlib.Data.Rat.Floor
@@ -2743,3 +2744,672 @@ end iobjhist
 example : (⟨[1, 2, 4]⟩ : IGObj ℤ).trace [IGOp.nearest 3, IGOp.extra, IGOp.nearest 5, IGOp.setGrid [2, 1], IGOp.upper 6] =
     [IGOut.answer (some 2), IGOut.state [0, 1, 2, 4, 6], IGOut.answer (some 4), IGOut.raised, IGOut.answer none] := by
   decide
+
+/-! ## Round 7 -/
+
+/-! ### the literals of the irregular rounding / the parabola gradient, read from the current source -/
+
+section r7sides
+variable {F : Type} [LinearOrder F]
+
+/-- **the `searchsorted` sides and the index shift of the current source** are the ones of the model
+functions all irregular theorems are about (`irrLowerC`, `irrUpper`, `irrNearest`): a changed side
+or shift in `IrregularParameterGrid.round_to_*_grid_point` changes `Gen.C15.*` and breaks this. -/
+theorem c15_irregular_sides_for_current_source [Add F] [Div F] [OfNat F 2] (g : List F) (v : F) :
+    irrLowerP Gen.C15.irrLowerSideRight Gen.C15.irrLowerShift g v = irrLowerC g v ∧
+      irrUpperP Gen.C15.irrUpperSideRight g v = irrUpper g v ∧
+      irrNearestP Gen.C15.irrNearestSideRight g v = irrNearest g v := by
+  refine ⟨?_, rfl, rfl⟩
+  unfold irrLowerP irrLowerC ssSide
+  simp only [Gen.C15.irrLowerSideRight, Gen.C15.irrLowerShift, if_true]
+  by_cases h : ssRight g v = 0
+  · simp [h]
+  · have : ¬ ssRight g v < 1 := by omega
+    simp [h, this]
+
+/-- the sides matter: with `'left'` the lower rounding of a value *on* a grid point would be the
+member before it, with `'right'` the nearest rounding of an exact middle would go up -/
+example : irrLowerP false 1 [(1 : ℤ), 2, 4] 2 = some 1 ∧ irrLowerC [(1 : ℤ), 2, 4] 2 = some 2 := by decide
+
+end r7sides
+
+/-- **the gradient factor of the current source** (`grads = 2. * a * x_minus_x1 + b`) is the one of
+`parGrad`, and with it the reported gradient is the derivative of the reported value. -/
+theorem c15_parabola_grad_factor_for_current_source (x1 dx M0 M1 M2 x : ℝ) :
+    parGradP ((Gen.C15.parGradFactor : ℕ) : ℝ) x1 dx M0 M1 M2 x = parGrad x1 dx M0 M1 M2 x ∧
+      HasDerivAt (fun t => parValue x1 dx M0 M1 M2 t)
+        (parGradP ((Gen.C15.parGradFactor : ℕ) : ℝ) x1 dx M0 M1 M2 x) x := by
+  have h : parGradP ((Gen.C15.parGradFactor : ℕ) : ℝ) x1 dx M0 M1 M2 x = parGrad x1 dx M0 M1 M2 x := by
+    unfold parGradP parGrad Gen.C15.parGradFactor
+    norm_num
+  exact ⟨h, h ▸ c15_grad_is_deriv_parabola x1 dx M0 M1 M2 x⟩
+
+/-! ### linear interpolation over an irregular grid -/
+
+namespace C15
+section ilin
+variable {F : Type} [Field F] [LinearOrder F] [BEq F] [LawfulBEq F]
+
+theorem linComputeIrr_eq (g : List F) (Mf : Option Int → List F → List F) (ns : List ℕ) (sid : Option Int)
+    (xs : List F) :
+    linComputeIrr g Mf ns sid xs =
+      (irrLowerArr g xs).bind fun x0 => (irrUpperArr g xs).bind fun x1 => linLine Mf ns sid x0 x1 := by
+  unfold linComputeIrr
+  cases irrLowerArr g xs with
+  | none => rfl
+  | some x0 => cases irrUpperArr g xs <;> rfl
+
+/-- what `irrLowerC` answers is the greatest member `≤ v` -/
+theorem irrLowerC_spec (g : List F) (hs : g.Pairwise (· < ·)) (v a : F) (h : irrLowerC g v = some a) :
+    a ∈ g ∧ a ≤ v ∧ ∀ b ∈ g, b ≤ v → b ≤ a := by
+  have hc := c15_irregular_lower_checked g hs v
+  have hex : ∃ b ∈ g, b ≤ v := by
+    by_contra hne
+    push Not at hne
+    rw [hc.1.mpr hne] at h
+    simp at h
+  obtain ⟨a', ha', hmem, hle, hgr⟩ := c15_irregular_lower g hs v hex
+  rw [hc.2 hex, ha'] at h
+  simp only [Option.some.injEq] at h
+  subst h
+  exact ⟨hmem, hle, hgr⟩
+
+/-- the upper rounding of `v` is the upper rounding of its lower grid member -/
+theorem irrUpper_of_lower (g : List F) (hs : g.Pairwise (· < ·)) (v a : F) (h : irrLowerC g v = some a) :
+    irrUpper g v = irrUpper g a := by
+  obtain ⟨_, hle, hgr⟩ := irrLowerC_spec g hs v a h
+  unfold irrUpper ssRight
+  have : g.countP (fun e => decide (e ≤ v)) = g.countP (fun e => decide (e ≤ a)) := by
+    apply List.countP_congr
+    intro e he
+    simp only [decide_eq_true_eq]
+    exact ⟨fun h1 => hgr e he h1, fun h1 => le_trans h1 hle⟩
+  rw [this]
+
+theorem irrUpperArr_of_lower (g : List F) (hs : g.Pairwise (· < ·)) (xs x0 : List F)
+    (h : irrLowerArr g xs = some x0) : irrUpperArr g xs = optAll (x0.map (irrUpper g)) := by
+  unfold irrLowerArr irrUpperArr at *
+  induction xs generalizing x0 with
+  | nil =>
+    simp only [List.map_nil, optAll, Option.some.injEq] at h
+    subst h
+    rfl
+  | cons x rest ih =>
+    simp only [List.map_cons] at h ⊢
+    cases hx : irrLowerC g x with
+    | none => rw [hx] at h; simp [optAll] at h
+    | some a =>
+      rw [hx] at h
+      simp only [optAll] at h
+      cases hr : optAll (rest.map (irrLowerC g)) with
+      | none => rw [hr] at h; simp at h
+      | some r =>
+        rw [hr] at h
+        simp only [Option.map_some, Option.some.injEq] at h
+        subst h
+        simp only [List.map_cons]
+        rw [irrUpper_of_lower g hs x a hx]
+        cases irrUpper g a with
+        | none => simp [optAll]
+        | some b => simp only [optAll]; rw [ih r hr]
+
+/-- cache invariant: the content is what a computation for the stored state and some parameter
+values produced -/
+def LinOKI (g : List F) (Mf : Option Int → List F → List F) (ns : List ℕ) : Option (LinCache F) → Prop
+  | none => True
+  | some c => ∃ xs', linComputeIrr g Mf ns c.sid xs' = some c
+
+theorem linLine_fields (Mf : Option Int → List F → List F) (ns : List ℕ) (sid : Option Int) (x0 x1 : List F)
+    (c : LinCache F) (h : linLine Mf ns sid x0 x1 = some c) : c.sid = sid ∧ c.x0 = x0 := by
+  unfold linLine at h
+  simp only [] at h
+  split at h
+  · split_ifs at h
+    simp only [Option.some.injEq] at h
+    subst h
+    exact ⟨rfl, rfl⟩
+  · simp at h
+
+theorem linComputeIrr_fields (g : List F) (Mf : Option Int → List F → List F) (ns : List ℕ) (sid : Option Int)
+    (xs : List F) (c : LinCache F) (h : linComputeIrr g Mf ns sid xs = some c) :
+    c.sid = sid ∧ irrLowerArr g xs = some c.x0 := by
+  rw [linComputeIrr_eq] at h
+  cases h0 : irrLowerArr g xs with
+  | none => rw [h0] at h; simp at h
+  | some x0 =>
+    rw [h0] at h
+    simp only [Option.bind_some] at h
+    cases h1 : irrUpperArr g xs with
+    | none => rw [h1] at h; simp at h
+    | some x1 =>
+      rw [h1] at h
+      simp only [Option.bind_some] at h
+      obtain ⟨hs, hx⟩ := linLine_fields Mf ns sid x0 x1 c h
+      exact ⟨hs, by rw [hx]⟩
+
+/-- a cache hit returns what the recomputation would give (sorted grid) -/
+theorem linComputeIrr_hit (g : List F) (hs : g.Pairwise (· < ·)) (Mf : Option Int → List F → List F) (ns : List ℕ)
+    (c : LinCache F) (xs' xs : List F) (hc : linComputeIrr g Mf ns c.sid xs' = some c)
+    (hx0 : irrLowerArr g xs = some c.x0) : linComputeIrr g Mf ns c.sid xs = some c := by
+  have h0 := (linComputeIrr_fields g Mf ns c.sid xs' c hc).2
+  rw [linComputeIrr_eq] at hc ⊢
+  rw [h0, irrUpperArr_of_lower g hs xs' c.x0 h0] at hc
+  rw [hx0, irrUpperArr_of_lower g hs xs c.x0 hx0]
+  exact hc
+
+theorem linCallIrr_spec (g : List F) (hs : g.Pairwise (· < ·)) (Mf : Option Int → List F → List F) (ns : List ℕ)
+    (cache : Option (LinCache F)) (hok : LinOKI g Mf ns cache) (sid : Option Int) (xs : List F) :
+    (linCallIrr g Mf ns cache sid xs).2 = linSpecIrr g Mf ns sid xs ∧
+      LinOKI g Mf ns (linCallIrr g Mf ns cache sid xs).1 := by
+  unfold linCallIrr
+  cases hl : irrLowerArr g xs with
+  | none =>
+    simp only []
+    refine ⟨?_, hok⟩
+    unfold linSpecIrr
+    rw [linComputeIrr_eq, hl]
+    rfl
+  | some x0 =>
+    simp only []
+    have hfresh : ∀ (cache : Option (LinCache F)), LinOKI g Mf ns cache →
+        ((match linComputeIrr g Mf ns sid xs with
+          | some c' => (some c', linEval c' ns xs)
+          | none => (cache, none) : Option (LinCache F) × Option (List F × List F))).2
+          = linSpecIrr g Mf ns sid xs ∧
+        LinOKI g Mf ns ((match linComputeIrr g Mf ns sid xs with
+          | some c' => (some c', linEval c' ns xs)
+          | none => (cache, none) : Option (LinCache F) × Option (List F × List F))).1 := by
+      intro cache hok
+      unfold linSpecIrr
+      cases hcomp : linComputeIrr g Mf ns sid xs with
+      | none => exact ⟨rfl, hok⟩
+      | some c' =>
+        refine ⟨rfl, ?_⟩
+        have := (linComputeIrr_fields g Mf ns sid xs c' hcomp).1
+        exact ⟨xs, by rw [this]; exact hcomp⟩
+    cases cache with
+    | none => exact hfresh none hok
+    | some c =>
+      simp only []
+      split_ifs with hhit
+      · obtain ⟨_, hsid, hx0⟩ := hhit
+        have hx0' : c.x0 = x0 := by simpa using hx0
+        obtain ⟨xs', hc⟩ := hok
+        have := linComputeIrr_hit g hs Mf ns c xs' xs hc (by rw [hx0']; exact hl)
+        refine ⟨?_, ⟨xs', hc⟩⟩
+        unfold linSpecIrr
+        rw [← hsid, this]
+        rfl
+      · exact hfresh (some c) hok
+
+/-- value `i` of a fresh call over an irregular grid, given what the broadcasts put at position `i` -/
+theorem ilin_value_at (g : List F) (Mf : Option Int → List F → List F) (ns : List ℕ) (sid : Option Int)
+    (xs X0 X1 lx l0 l1 : List F) (hlo : irrLowerArr g xs = some X0) (hup : irrUpperArr g xs = some X1)
+    (hbx : broadcast xs ns = some lx) (hb0 : broadcast X0 ns = some l0) (hb1 : broadcast X1 ns = some l1)
+    (hM0 : (Mf sid X0).length = ns.sum) (hM1 : (Mf sid X1).length = ns.sum)
+    (i : ℕ) (x x0 x1 m0 m1 : F) (ex : lx[i]? = some x) (e0 : l0[i]? = some x0) (e1 : l1[i]? = some x1)
+    (h0 : (Mf sid X0)[i]? = some m0) (h1 : (Mf sid X1)[i]? = some m1) :
+    ∃ vals grads, linSpecIrr g Mf ns sid xs = some (vals, grads) ∧
+      vals[i]? = some (lineValue x0 x1 m0 m1 x) ∧ grads[i]? = some (lineGrad x0 x1 m0 m1) := by
+  unfold linSpecIrr
+  rw [linComputeIrr_eq, hlo, hup]
+  simp only [Option.bind_some, linLine, hb0, hb1, hM0, hM1, and_self, if_true, linEval, hbx]
+  refine ⟨_, _, rfl, ?_, ?_⟩
+  · simp [List.getElem?_zipWith, h0, h1, e0, e1, ex, lineValue, lineB, lineM]
+  · simp [List.getElem?_zipWith, h0, h1, e0, e1, lineGrad, lineM]
+
+end ilin
+end C15
+
+section ilinthm
+variable {F : Type} [Field F] [LinearOrder F] [BEq F] [LawfulBEq F]
+
+/-- **cache transparency of the linear method over an irregular grid** (induction over the call
+history, any trial-data states, parameter values, raising calls — below the first / at or above the
+last grid point, wrong number of values): the used object answers like a fresh one.  The only
+hypothesis is the sortedness the constructor establishes (`c15_irregular_ctor_sorted`). -/
+theorem c15_irregular_linear_cache_transparent (g : List F) (hs : g.Pairwise (· < ·))
+    (Mf : Option Int → List F → List F) (ns : List ℕ) (calls : List (Option Int × List F)) :
+    linRunIrr g Mf ns none calls = calls.map fun c => linSpecIrr g Mf ns c.1 c.2 := by
+  suffices h : ∀ cache, C15.LinOKI g Mf ns cache →
+      linRunIrr g Mf ns cache calls = calls.map fun c => linSpecIrr g Mf ns c.1 c.2 from h none trivial
+  induction calls with
+  | nil => intro _ _; rfl
+  | cons c rest ih =>
+    intro cache hok
+    obtain ⟨sid, xs⟩ := c
+    obtain ⟨h1, h2⟩ := C15.linCallIrr_spec g hs Mf ns cache hok sid xs
+    simp only [linRunIrr, List.map_cons]
+    rw [h1, ih _ h2]
+
+/-- **one shared value over an irregular grid**: for `first ≤ x < last` every value `i` is the line
+through the greatest member `a ≤ x` and the least member `b > x` (cells of any width), evaluated
+at `x`, and the gradient is its slope; `a < b`, so no division by zero is involved. -/
+theorem c15_irregular_linear_shared (g : List F) (hs : g.Pairwise (· < ·)) (Mf : Option Int → List F → List F)
+    (ns : List ℕ) (sid : Option Int) (x : F) (hlo : ∃ a ∈ g, a ≤ x) (hhi : ∃ b ∈ g, x < b)
+    (hM : ∀ t, (Mf sid [t]).length = ns.sum) (i : ℕ) (hi : i < ns.sum) :
+    ∃ a b m0 m1 vals grads, a ∈ g ∧ b ∈ g ∧ a ≤ x ∧ x < b ∧ (∀ c ∈ g, c ≤ a ∨ b ≤ c) ∧
+      (Mf sid [a])[i]? = some m0 ∧ (Mf sid [b])[i]? = some m1 ∧
+      linSpecIrr g Mf ns sid [x] = some (vals, grads) ∧
+      vals[i]? = some (lineValue a b m0 m1 x) ∧ grads[i]? = some (lineGrad a b m0 m1) := by
+  obtain ⟨a, ha, ham, hax, hagr⟩ := c15_irregular_lower g hs x hlo
+  obtain ⟨b, hb, hbm, hxb, hbls⟩ := c15_irregular_upper g hs x hhi
+  have hac : irrLowerC g x = some a := by rw [(c15_irregular_lower_checked g hs x).2 hlo, ha]
+  have hX0 : irrLowerArr g [x] = some [a] := by simp [irrLowerArr, optAll, hac]
+  have hX1 : irrUpperArr g [x] = some [b] := by simp [irrUpperArr, optAll, hb]
+  obtain ⟨lx, hlx, ex⟩ := C15.shared_getElem? x ns i hi
+  obtain ⟨l0, hl0, e0⟩ := C15.shared_getElem? a ns i hi
+  obtain ⟨l1, hl1, e1⟩ := C15.shared_getElem? b ns i hi
+  have i0 : i < (Mf sid [a]).length := by rw [hM]; exact hi
+  have i1 : i < (Mf sid [b]).length := by rw [hM]; exact hi
+  obtain ⟨vals, grads, hsp, hv, hg⟩ := C15.ilin_value_at g Mf ns sid [x] [a] [b] lx l0 l1 hX0 hX1 hlx hl0 hl1
+    (hM a) (hM b) i x a b (Mf sid [a])[i] (Mf sid [b])[i] ex e0 e1
+    (List.getElem?_eq_getElem i0) (List.getElem?_eq_getElem i1)
+  refine ⟨a, b, _, _, vals, grads, ham, hbm, hax, hxb, ?_, List.getElem?_eq_getElem i0, List.getElem?_eq_getElem i1,
+    hsp, hv, hg⟩
+  intro c hc
+  rcases le_or_gt c x with h | h
+  · exact Or.inl (hagr c hc h)
+  · exact Or.inr (hbls c hc h)
+
+/-- **the irregular linear interpolation reproduces the manifold at every grid member** (but the
+last one, where the upper rounding raises) and **is exact for functions of degree ≤ 1** at every
+`first ≤ x < last`, value and gradient, whatever the cell widths. -/
+theorem c15_irregular_linear_exact (g : List F) (hs : g.Pairwise (· < ·)) (f : F → F)
+    (ns : List ℕ) (sid : Option Int) (x : F) (hlo : ∃ a ∈ g, a ≤ x) (hhi : ∃ b ∈ g, x < b)
+    (i : ℕ) (hi : i < ns.sum) :
+    let Mf : Option Int → List F → List F := fun _ t => List.replicate ns.sum (f (t.headD 0))
+    ∃ vals grads, linSpecIrr g Mf ns sid [x] = some (vals, grads) ∧
+      (x ∈ g → vals[i]? = some (f x)) ∧
+      (∀ c0 c1, (∀ t, f t = c1 * t + c0) → vals[i]? = some (c1 * x + c0) ∧ grads[i]? = some c1) := by
+  intro Mf
+  obtain ⟨a, b, m0, m1, vals, grads, ham, hbm, hax, hxb, hnb, hm0, hm1, hsp, hv, hg⟩ :=
+    c15_irregular_linear_shared g hs Mf ns sid x hlo hhi (fun t => by simp [Mf]) i hi
+  have hab : a ≠ b := (lt_of_le_of_lt hax hxb).ne
+  have e0 : m0 = f a := by
+    have : (Mf sid [a])[i]? = some (f a) := by simp [Mf, hi]
+    rw [this] at hm0; exact (Option.some.inj hm0).symm
+  have e1 : m1 = f b := by
+    have : (Mf sid [b])[i]? = some (f b) := by simp [Mf, hi]
+    rw [this] at hm1; exact (Option.some.inj hm1).symm
+  rw [e0, e1] at hv hg
+  refine ⟨vals, grads, hsp, ?_, ?_⟩
+  · intro hx
+    -- the greatest member ≤ x is x itself
+    have hxa : x ≤ a := by
+      rcases hnb x hx with h | h
+      · exact h
+      · exact absurd (lt_of_le_of_lt h hxb) (lt_irrefl _)
+    have hxa' : x = a := le_antisymm hxa hax
+    rw [hv, ← hxa']
+    rw [← hxa'] at hab
+    rw [(c15_linear_at_grid x b (f x) (f b) hab).1]
+  · intro c0 c1 hf
+    rw [hf a, hf b] at hv hg
+    obtain ⟨h1, h2⟩ := c15_linear_exact_deg1 a b c0 c1 x hab
+    rw [hv, hg, h1, h2]
+    exact ⟨rfl, rfl⟩
+
+/-- **outside `[first, last)` the call raises and leaves the object alone**: below the first grid
+point the lower rounding raises before anything else happens (any cache content stays), at or above
+the last one a fresh object raises in the upper rounding. -/
+theorem c15_irregular_linear_out_of_range (g : List F) (hs : g.Pairwise (· < ·))
+    (Mf : Option Int → List F → List F) (ns : List ℕ) (sid : Option Int) (xs : List F) (x : F) (hx : x ∈ xs) :
+    ((∀ a ∈ g, x < a) → ∀ cache, linCallIrr g Mf ns cache sid xs = (cache, none)) ∧
+      ((∀ a ∈ g, a ≤ x) → linSpecIrr g Mf ns sid xs = none) := by
+  have optAll_none : ∀ {α : Type} (l : List (Option α)), none ∈ l → optAll l = none := by
+    intro α l
+    induction l with
+    | nil => simp
+    | cons o rest ih =>
+      intro h
+      cases o with
+      | none => rfl
+      | some v =>
+        simp only [List.mem_cons, reduceCtorEq, false_or] at h
+        simp [optAll, ih h]
+  constructor
+  · intro hbelow cache
+    have h1 : irrLowerC g x = none := (c15_irregular_lower_checked g hs x).1.mpr hbelow
+    have : irrLowerArr g xs = none := by
+      unfold irrLowerArr
+      apply optAll_none
+      rw [List.mem_map]
+      exact ⟨x, hx, h1⟩
+    unfold linCallIrr
+    rw [this]
+  · intro habove
+    have h1 : irrUpper g x = none := c15_irregular_upper_none g x habove
+    have : irrUpperArr g xs = none := by
+      unfold irrUpperArr
+      apply optAll_none
+      rw [List.mem_map]
+      exact ⟨x, hx, h1⟩
+    unfold linSpecIrr
+    rw [C15.linComputeIrr_eq, this]
+    cases irrLowerArr g xs <;> rfl
+
+end ilinthm
+
+/-- non-vacuity: cells of width 1, 2 and 4; a history with a hit, a miss, a raising call; the
+hypotheses of the theorems above hold for it -/
+example : linRunIrr [(1 : ℚ), 2, 4, 8] (fun _ t => List.replicate 2 (3 * t.headD 0 + 1)) [2] none
+      [(some 1, [3]), (some 1, [7 / 2]), (some 1, [8]), (some 1, [5])] =
+    [some ([10, 10], [3, 3]), some ([23 / 2, 23 / 2], [3, 3]), none, some ([16, 16], [3, 3])] := by
+  decide +kernel
+
+/-! ### `ParameterGridSet.add_extra_lower_and_upper_bin` -/
+
+section gridsetthm
+variable {F : Type} [LinearOrder F] [Field F] [IsStrictOrderedRing F]
+
+/-- **extending a set of irregular grids**: the loop completes exactly when every grid has at least
+two points, and then every grid is extended as by its own method (so `c15_irregular_extra_bins`
+applies to each member); when it does not complete, the grids before the first short one *are*
+extended and the rest is untouched (the operation is not atomic — as coded). -/
+theorem c15_irregular_gridset_extra (gs : List (List F)) :
+    ((irrSetExtra gs).2 = true ↔ ∀ g ∈ gs, 2 ≤ g.length) ∧
+      ((irrSetExtra gs).2 = true → (irrSetExtra gs).1.map some = gs.map irrAddExtra) ∧
+      (irrSetExtra gs).1.length = gs.length := by
+  have hne : ∀ g : List F, irrAddExtra g = none ↔ ¬ 2 ≤ g.length := by
+    intro g
+    unfold irrAddExtra
+    rcases g with _ | ⟨a, _ | ⟨b, t⟩⟩
+    · simp
+    · simp
+    · have : ∃ z y r, (a :: b :: t).reverse = z :: y :: r := by
+        have hl : 2 ≤ (a :: b :: t).reverse.length := by simp
+        rcases h : (a :: b :: t).reverse with _ | ⟨z, _ | ⟨y, r⟩⟩
+        · rw [h] at hl; simp at hl
+        · rw [h] at hl; simp at hl
+        · exact ⟨z, y, r, rfl⟩
+      obtain ⟨z, y, r, h⟩ := this
+      rw [h]
+      simp
+  induction gs with
+  | nil => simp [irrSetExtra]
+  | cons g rest ih =>
+    unfold irrSetExtra
+    cases hg : irrAddExtra g with
+    | none =>
+      have := (hne g).mp hg
+      simp only [List.length_cons, List.mem_cons, forall_eq_or_imp, Bool.false_eq_true, false_iff, not_and,
+        false_implies, and_true]
+      intro h
+      exact absurd h this
+    | some g' =>
+      have h2 : 2 ≤ g.length := by
+        by_contra hn
+        rw [(hne g).mpr hn] at hg
+        simp at hg
+      obtain ⟨i1, i2, i3⟩ := ih
+      simp only [List.mem_cons, forall_eq_or_imp, h2, true_and, List.map_cons, List.length_cons, hg]
+      refine ⟨i1, ?_, by rw [i3]⟩
+      intro h
+      rw [i2 h]
+
+end gridsetthm
+
+section gridsetreg
+open C15
+variable {K : Type} [Field K] [LinearOrder K] [IsStrictOrderedRing K] [FloorRing K] [RoundOps K]
+  [LawfulRoundOps K]
+
+/-- **extending a set of regular grids** (`ParameterGridSet.add_extra_lower_and_upper_bin`): for grids
+as constructed (also after earlier extensions / copies: `ObjInv`) the loop runs to the end and every
+member satisfies the invariant again, so every rounding theorem applies to every member of the
+extended set. -/
+theorem c15_gridset_extra (os : List (PGObj K)) (h : ∀ o ∈ os, ObjInv o) :
+    (gridSetExtra os).2 = true ∧ (∀ o' ∈ (gridSetExtra os).1, ObjInv o') ∧
+      (gridSetExtra os).1.length = os.length := by
+  induction os with
+  | nil => simp [gridSetExtra]
+  | cons o rest ih =>
+    obtain ⟨o', hstep, hinv⟩ := c15_object_extra_inv o (h o (by simp))
+    obtain ⟨i1, i2, i3⟩ := ih (fun o ho => h o (by simp [ho]))
+    unfold gridSetExtra
+    rw [hstep]
+    refine ⟨i1, ?_, by simp [i3]⟩
+    intro o2 ho2
+    simp only [List.mem_cons] at ho2
+    rcases ho2 with rfl | ho2
+    · exact hinv
+    · exact i2 o2 ho2
+
+end gridsetreg
+
+namespace C15
+theorem optAll_map_some {α β : Type} (l : List α) (f : α → Option β) (f' : α → β)
+    (h : ∀ x ∈ l, f x = some (f' x)) : optAll (l.map f) = some (l.map f') := by
+  induction l with
+  | nil => rfl
+  | cons a t ih =>
+    simp only [List.map_cons]
+    rw [h a (by simp)]
+    simp only [optAll]
+    rw [ih (fun x hx => h x (by simp [hx]))]
+    rfl
+end C15
+
+section ilinps
+variable {F : Type} [Field F] [LinearOrder F] [BEq F] [LawfulBEq F]
+
+/-- **several per-source values over an irregular grid**: value and gradient number
+`i = ns[0]+…+ns[k-1]+j` of a fresh call are the line through source `k`'s own neighbouring grid
+members `a ≤ xs[k] < b` (each source may sit in a cell of a different width), evaluated at source
+`k`'s own parameter value — no other source's parameter or cell enters. -/
+theorem c15_irregular_linear_per_source (g : List F) (hs : g.Pairwise (· < ·)) (Mf : Option Int → List F → List F)
+    (ns : List ℕ) (sid : Option Int) (xs : List F) (hlen : xs.length = ns.length)
+    (hin : ∀ x ∈ xs, (∃ a ∈ g, a ≤ x) ∧ (∃ b ∈ g, x < b))
+    (hM : ∀ t, (Mf sid t).length = ns.sum)
+    (k j : ℕ) (hk : k < xs.length) (hkn : k < ns.length) (hj : j < ns[k]) :
+    ∃ X0 X1 a b m0 m1 vals grads, irrLowerArr g xs = some X0 ∧ irrUpperArr g xs = some X1 ∧
+      a ∈ g ∧ b ∈ g ∧ a ≤ xs[k] ∧ xs[k] < b ∧ (∀ c ∈ g, c ≤ a ∨ b ≤ c) ∧
+      (Mf sid X0)[(ns.take k).sum + j]? = some m0 ∧ (Mf sid X1)[(ns.take k).sum + j]? = some m1 ∧
+      linSpecIrr g Mf ns sid xs = some (vals, grads) ∧
+      vals[(ns.take k).sum + j]? = some (lineValue a b m0 m1 xs[k]) ∧
+      grads[(ns.take k).sum + j]? = some (lineGrad a b m0 m1) := by
+  -- the per-source lower / upper members as total functions on the given values
+  let lo : F → F := fun x => (irrLowerC g x).getD x
+  let up : F → F := fun x => (irrUpper g x).getD x
+  have hlo : ∀ x ∈ xs, irrLowerC g x = some (lo x) := by
+    intro x hx
+    obtain ⟨a, ha, _⟩ := c15_irregular_lower g hs x (hin x hx).1
+    have : irrLowerC g x = some a := by rw [(c15_irregular_lower_checked g hs x).2 (hin x hx).1, ha]
+    simp [lo, this]
+  have hup : ∀ x ∈ xs, irrUpper g x = some (up x) := by
+    intro x hx
+    obtain ⟨b, hb, _⟩ := c15_irregular_upper g hs x (hin x hx).2
+    simp [up, hb]
+  have hX0 : irrLowerArr g xs = some (xs.map lo) := C15.optAll_map_some xs _ lo hlo
+  have hX1 : irrUpperArr g xs = some (xs.map up) := C15.optAll_map_some xs _ up hup
+  have hxk : xs[k] ∈ xs := List.getElem_mem hk
+  obtain ⟨a, ha, ham, hax, hagr⟩ := c15_irregular_lower g hs xs[k] (hin _ hxk).1
+  obtain ⟨b, hb, hbm, hxb, hbls⟩ := c15_irregular_upper g hs xs[k] (hin _ hxk).2
+  have hak : lo xs[k] = a := by
+    have := hlo _ hxk
+    rw [(c15_irregular_lower_checked g hs xs[k]).2 (hin _ hxk).1, ha] at this
+    exact (Option.some.inj this).symm
+  have hbk : up xs[k] = b := by
+    have := hup _ hxk
+    rw [hb] at this
+    exact (Option.some.inj this).symm
+  obtain ⟨lx, hlx, ex⟩ := c15_per_source_broadcast xs ns hlen k j hk hkn hj
+  obtain ⟨l0, hl0, e0⟩ := c15_per_source_broadcast (xs.map lo) ns (by simpa using hlen) k j (by simpa using hk) hkn hj
+  obtain ⟨l1, hl1, e1⟩ := c15_per_source_broadcast (xs.map up) ns (by simpa using hlen) k j (by simpa using hk) hkn hj
+  simp only [List.getElem_map, hak, hbk] at e0 e1
+  have hidx : (ns.take k).sum + j < ns.sum := by
+    have h1 : ns.sum = (ns.take k).sum + (ns.drop k).sum := by rw [← List.sum_append, List.take_append_drop]
+    have h2 : ns.drop k = ns[k] :: ns.drop (k + 1) := by rw [List.drop_eq_getElem_cons hkn]
+    rw [h1, h2, List.sum_cons]
+    omega
+  have i0 : (ns.take k).sum + j < (Mf sid (xs.map lo)).length := by rw [hM]; exact hidx
+  have i1 : (ns.take k).sum + j < (Mf sid (xs.map up)).length := by rw [hM]; exact hidx
+  obtain ⟨vals, grads, hsp, hv, hg⟩ := C15.ilin_value_at g Mf ns sid xs _ _ lx l0 l1 hX0 hX1 hlx hl0 hl1
+    (hM _) (hM _) _ xs[k] a b _ _ ex e0 e1 (List.getElem?_eq_getElem i0) (List.getElem?_eq_getElem i1)
+  refine ⟨_, _, a, b, _, _, vals, grads, hX0, hX1, ham, hbm, hax, hxb, ?_, List.getElem?_eq_getElem i0,
+    List.getElem?_eq_getElem i1, hsp, hv, hg⟩
+  intro c hc
+  rcases le_or_gt c xs[k] with h | h
+  · exact Or.inl (hagr c hc h)
+  · exact Or.inr (hbls c hc h)
+
+end ilinps
+
+/-- non-vacuity: two sources in cells of width 1 and 4 -/
+example : linSpecIrr [(1 : ℚ), 2, 4, 8] (fun _ t => match t with | [u, v] => [3 * u + 1, 3 * u + 1, 3 * v + 1] | _ => [])
+    [2, 1] (some 1) [3 / 2, 5] = some ([11 / 2, 11 / 2, 16], [3, 3, 3]) := by decide +kernel
+
+section ilinderiv
+open Filter Topology
+
+/-- **gradient = derivative of the reported value, irregular grid**: inside an open cell `(a, b)`
+of an irregular grid (neighbouring members of any distance) the code-shaped fresh call
+(rounding by `searchsorted`, broadcast, manifold function, line parameters) reports, for all
+parameter values near `x`, the value `val t` and one and the same gradient, and that gradient is the
+derivative of `val` at `x`. -/
+theorem c15_grad_is_deriv_irregular_linear (g : List ℝ) (hs : g.Pairwise (· < ·))
+    (Mf : Option Int → List ℝ → List ℝ) (ns : List ℕ) (sid : Option Int) (x a b : ℝ)
+    (ha : a ∈ g) (hb : b ∈ g) (hax : a < x) (hxb : x < b) (hnb : ∀ c ∈ g, c ≤ a ∨ b ≤ c)
+    (hM : ∀ t, (Mf sid [t]).length = ns.sum) (i : ℕ) (hi : i < ns.sum) :
+    ∃ (val : ℝ → ℝ) (grad : ℝ),
+      (∀ᶠ t in 𝓝 x, ∃ vals grads, linSpecIrr g Mf ns sid [t] = some (vals, grads) ∧
+        vals[i]? = some (val t) ∧ grads[i]? = some grad) ∧
+      HasDerivAt val grad x := by
+  have i0 : i < (Mf sid [a]).length := by rw [hM]; exact hi
+  have i1 : i < (Mf sid [b]).length := by rw [hM]; exact hi
+  refine ⟨fun t => lineValue a b (Mf sid [a])[i] (Mf sid [b])[i] t, lineGrad a b (Mf sid [a])[i] (Mf sid [b])[i], ?_,
+    c15_grad_is_deriv_linear a b _ _ x⟩
+  refine Filter.eventually_of_mem (Ioo_mem_nhds hax hxb) ?_
+  intro t ht
+  obtain ⟨a', b', m0, m1, vals, grads, ham, hbm, hat, htb, hnb', hm0, hm1, hsp, hv, hg⟩ :=
+    c15_irregular_linear_shared g hs Mf ns sid t ⟨a, ha, ht.1.le⟩ ⟨b, hb, ht.2⟩ hM i hi
+  have haa : a' = a := by
+    apply le_antisymm
+    · rcases hnb a' ham with h | h
+      · exact h
+      · exact absurd (lt_of_le_of_lt (le_trans h hat) ht.2) (lt_irrefl _)
+    · rcases hnb' a ha with h | h
+      · exact h
+      · exact absurd (lt_of_lt_of_le htb h) (not_lt.mpr ht.1.le)
+  have hbb : b' = b := by
+    apply le_antisymm
+    · rcases hnb' b hb with h | h
+      · exact absurd (lt_of_lt_of_le ht.2 (le_trans h hat)) (lt_irrefl _)
+      · exact h
+    · rcases hnb b' hbm with h | h
+      · exact absurd (lt_of_lt_of_le htb h) (not_lt.mpr ht.1.le)
+      · exact h
+  subst haa hbb
+  rw [List.getElem?_eq_getElem i0] at hm0
+  rw [List.getElem?_eq_getElem i1] at hm1
+  rw [← Option.some.inj hm0, ← Option.some.inj hm1] at hv hg
+  exact ⟨vals, grads, hsp, hv, hg⟩
+
+/-- non-vacuity: the cell (2, 4) of the grid [1, 2, 4, 8] -/
+example : ∃ a ∈ [(1 : ℝ), 2, 4, 8], ∃ b ∈ [(1 : ℝ), 2, 4, 8], a < 3 ∧ (3 : ℝ) < b ∧
+    ∀ c ∈ [(1 : ℝ), 2, 4, 8], c ≤ a ∨ b ≤ c :=
+  ⟨2, by simp, 4, by simp, by norm_num, by norm_num, by
+    intro c hc
+    simp only [List.mem_cons, List.not_mem_nil, or_false] at hc
+    rcases hc with rfl | rfl | rfl | rfl <;> norm_num⟩
+
+end ilinderiv
+
+section ilincross
+open Filter Topology
+
+/-- **no cross-talk between sources, as a derivative statement** (irregular grid, linear method):
+value `i` of source `k` does not move when the parameter of *another* source `k'` moves inside its
+open cell — the fresh call reports the same value and the same gradient for all `t` near `xs[k']`,
+so `∂ vals[i] / ∂ xs[k'] = 0` (the reported gradient array has one row: the derivative with respect
+to the value's own source parameter, `c15_grad_is_deriv_irregular_linear`). -/
+theorem c15_irregular_cross_gradient_zero (g : List ℝ) (hs : g.Pairwise (· < ·))
+    (Mf : Option Int → List ℝ → List ℝ) (ns : List ℕ) (sid : Option Int) (xs : List ℝ) (hlen : xs.length = ns.length)
+    (hin : ∀ x ∈ xs, (∃ a ∈ g, a ≤ x) ∧ (∃ b ∈ g, x < b))
+    (hM : ∀ t, (Mf sid t).length = ns.sum)
+    (k j k' : ℕ) (hk : k < xs.length) (hkn : k < ns.length) (hj : j < ns[k]) (hk' : k' < xs.length) (hne : k' ≠ k)
+    (a' b' : ℝ) (ha' : a' ∈ g) (hb' : b' ∈ g) (hax : a' < xs[k']) (hxb : xs[k'] < b') (hnb : ∀ c ∈ g, c ≤ a' ∨ b' ≤ c) :
+    ∃ v gr : ℝ,
+      (∀ᶠ t in 𝓝 xs[k'], ∃ vals grads, linSpecIrr g Mf ns sid (xs.set k' t) = some (vals, grads) ∧
+        vals[(ns.take k).sum + j]? = some v ∧ grads[(ns.take k).sum + j]? = some gr) ∧
+      HasDerivAt (fun _ : ℝ => v) 0 xs[k'] := by
+  obtain ⟨X0, X1, a, b, m0, m1, vals, grads, hX0, hX1, ham, hbm, hax0, hxb0, hnb0, hm0, hm1, hsp, hv, hg⟩ :=
+    c15_irregular_linear_per_source g hs Mf ns sid xs hlen hin hM k j hk hkn hj
+  refine ⟨lineValue a b m0 m1 xs[k], lineGrad a b m0 m1, ?_, hasDerivAt_const _ _⟩
+  refine Filter.eventually_of_mem (Ioo_mem_nhds hax hxb) ?_
+  intro t ht
+  -- inside the open cell the two roundings of `t` are those of `xs[k']`
+  have hcell : ∀ u : ℝ, a' < u → u < b' → irrLowerC g u = some a' ∧ irrUpper g u = some b' := by
+    intro u h1 h2
+    obtain ⟨a2, ha2, ha2m, ha2u, ha2g⟩ := c15_irregular_lower g hs u ⟨a', ha', h1.le⟩
+    obtain ⟨b2, hb2, hb2m, hub2, hb2l⟩ := c15_irregular_upper g hs u ⟨b', hb', h2⟩
+    have e1 : a2 = a' := by
+      apply le_antisymm
+      · rcases hnb a2 ha2m with h | h
+        · exact h
+        · exact absurd (lt_of_le_of_lt (le_trans h ha2u) h2) (lt_irrefl _)
+      · exact ha2g a' ha' h1.le
+    have e2 : b2 = b' := by
+      apply le_antisymm
+      · exact hb2l b' hb' h2
+      · rcases hnb b2 hb2m with h | h
+        · exact absurd (lt_of_lt_of_le hub2 h) (not_lt.mpr h1.le)
+        · exact h
+    rw [(c15_irregular_lower_checked g hs u).2 ⟨a', ha', h1.le⟩, ha2, hb2, e1, e2]
+    exact ⟨rfl, rfl⟩
+  have hmapset : ∀ (f : ℝ → Option ℝ), f t = f xs[k'] → (xs.set k' t).map f = xs.map f := by
+    intro f hf
+    rw [List.map_set, hf]
+    apply List.ext_getElem (by simp)
+    intro n h1 h2
+    by_cases hn : k' = n
+    · subst hn; simp
+    · simp [List.getElem_set_of_ne hn]
+  have hL : irrLowerArr g (xs.set k' t) = some X0 := by
+    unfold irrLowerArr at hX0 ⊢
+    rw [hmapset _ (by rw [(hcell t ht.1 ht.2).1, (hcell _ hax hxb).1])]
+    exact hX0
+  have hU : irrUpperArr g (xs.set k' t) = some X1 := by
+    unfold irrUpperArr at hX1 ⊢
+    rw [hmapset _ (by rw [(hcell t ht.1 ht.2).2, (hcell _ hax hxb).2])]
+    exact hX1
+  have hlen' : (xs.set k' t).length = ns.length := by simpa using hlen
+  have hk2 : k < (xs.set k' t).length := by simpa using hk
+  have hxk : (xs.set k' t)[k] = xs[k] := by simp [List.getElem_set_of_ne hne]
+  have hin' : ∀ x ∈ xs.set k' t, (∃ a ∈ g, a ≤ x) ∧ (∃ b ∈ g, x < b) := by
+    intro x hx
+    rcases List.mem_or_eq_of_mem_set hx with h | h
+    · exact hin x h
+    · subst h; exact ⟨⟨a', ha', ht.1.le⟩, ⟨b', hb', ht.2⟩⟩
+  obtain ⟨Y0, Y1, c, d, n0, n1, vals', grads', hY0, hY1, hcm, hdm, hcx, hxd, hnb2, hn0, hn1, hsp', hv', hg'⟩ :=
+    c15_irregular_linear_per_source g hs Mf ns sid (xs.set k' t) hlen' hin' hM k j hk2 hkn hj
+  rw [hL] at hY0
+  rw [hU] at hY1
+  obtain rfl := Option.some.inj hY0
+  obtain rfl := Option.some.inj hY1
+  rw [hm0] at hn0
+  rw [hm1] at hn1
+  obtain rfl := Option.some.inj hn0
+  obtain rfl := Option.some.inj hn1
+  rw [hxk] at hcx hxd hv'
+  have eca : c = a := by
+    apply le_antisymm
+    · rcases hnb0 c hcm with h | h
+      · exact h
+      · exact absurd (lt_of_le_of_lt (le_trans h hcx) hxb0) (lt_irrefl _)
+    · rcases hnb2 a ham with h | h
+      · exact h
+      · exact absurd (lt_of_lt_of_le hxd h) (not_lt.mpr hax0)
+  have edb : d = b := by
+    apply le_antisymm
+    · rcases hnb2 b hbm with h | h
+      · exact absurd (lt_of_lt_of_le hxb0 (le_trans h hcx)) (lt_irrefl _)
+      · exact h
+    · rcases hnb0 d hdm with h | h
+      · exact absurd (lt_of_lt_of_le hxd h) (not_lt.mpr hax0)
+      · exact h
+  subst eca edb
+  exact ⟨vals', grads', hsp', hv', hg'⟩
+
+end ilincross
